@@ -41,9 +41,12 @@ import ast
 import hashlib
 import io
 import json
+import os
+import time
 import keyword
 import re
 import signal
+import unicodedata
 import token as T
 import tokenize
 import warnings
@@ -51,6 +54,7 @@ import warnings
 from . import common
 from . import c01_gen as gen
 from . import c01_rw as rw
+from . import c01_min as cmin
 
 LEVEL = "exploration"
 
@@ -124,7 +128,7 @@ def _msg_class(e):
     m = re.search(r"code: (.*)$", msg.split("\n")[0])
     if m:
         tok = m.group(1).strip()
-        if keyword.iskeyword(tok) or keyword.issoftkeyword(tok):
+        if keyword.iskeyword(tok):
             return "code:" + tok
         if re.fullmatch(r"[^\W\d]\w*", tok):
             return "code:NAME"
@@ -155,13 +159,14 @@ def _leaf(x):
 
 
 def first_diff(g, e, where="root"):
-    """First structural difference between xonsh's tree g and CPython's tree e, or None."""
+    """First structural difference between xonsh's tree g and CPython's tree e (None if equal):
+    (signature detail, human detail).  The signature names only the field where the trees part."""
     where = _ALIAS.get(where, where)
     if isinstance(e, ast.AST):
         if not isinstance(g, ast.AST):
-            return f"{where}:{_leaf(g)}!={type(e).__name__}"
+            return where, f"{where}: {_leaf(g)} != {type(e).__name__}"
         if type(g) is not type(e):
-            return f"{where}:{type(g).__name__}!={type(e).__name__}"
+            return where, f"{where}: {type(g).__name__} != {type(e).__name__}"
         cname = type(e).__name__
         for f in e._fields:
             if f in _IGNORED:
@@ -176,18 +181,20 @@ def first_diff(g, e, where="root"):
         return None
     if isinstance(e, list):
         if not isinstance(g, list):
-            return f"{where}:{_leaf(g)}!=list"
+            return where, f"{where}: {_leaf(g)} != list"
         if len(g) != len(e):
-            return f"{where}:len{len(g)}!=len{len(e)}"
+            return where + ":len", f"{where}: {len(g)} element(s) != {len(e)}"
         for gi, ei in zip(g, e):
             d = first_diff(gi, ei, where)
             if d:
                 return d
         return None
     if isinstance(g, (ast.AST, list)):
-        return f"{where}:{type(g).__name__}!={_leaf(e)}"
+        return where, f"{where}: {type(g).__name__} != {_leaf(e)}"
     if type(g) is not type(e) or repr(g) != repr(e):
-        return f"{where}:{_leaf(g)}!={_leaf(e)}"
+        if isinstance(g, str) and isinstance(e, str) and unicodedata.normalize("NFKC", g) == e:
+            return "identifier-nfkc", f"{where}: {g!r} != {e!r} (not NFKC-normalised)"
+        return where, f"{where}: {g!r} != {e!r}"
     return None
 
 
@@ -229,7 +236,7 @@ def _evaluate(text, mode):
         got = _empty(mode)
     d = first_diff(got, exp)
     if d:
-        return "ast-diff:" + d
+        return "ast-diff:" + d[0]
     try:
         compile(exp, "<c01>", mode, dont_inherit=True)
     except Exception:  # noqa: BLE001 - CPython itself does not compile it: nothing to require
@@ -252,6 +259,9 @@ def describe(text, mode):
     if got is None:
         got = _empty(mode)
     obs = ast.dump(got)
+    d = first_diff(got, exp)
+    if d:
+        obs = f"[first difference: {d[1]}]  " + obs
     try:
         compile(exp, "<c01>", mode, dont_inherit=True)
         try:
@@ -263,230 +273,19 @@ def describe(text, mode):
     return obs, ast.dump(exp)
 
 
-# ----------------------------------------------------------------------------- minimisation
+# ----------------------------------------------------------------------------- classification
 
-_TOKCOST = {T.NUMBER: 2, T.STRING: 3, T.FSTRING_START: 1, T.FSTRING_MIDDLE: 1, T.FSTRING_END: 1}
-
-
-def size_key(text):
-    """Well-founded measure: (#tokens, token cost, length, text).  Undecodable text sorts last."""
-    try:
-        toks = [t for t in tokenize.generate_tokens(io.StringIO(text).readline) if t.type not in rw._SKIP]
-    except (tokenize.TokenError, SyntaxError, ValueError):
-        return (10**6, 0, len(text), text)
-    cost = 0
-    for t in toks:
-        if t.type == T.NAME:
-            if keyword.iskeyword(t.string) or t.string == "a":
-                continue
-            cost += 1 if len(t.string) == 1 and t.string.isascii() else 2
-        else:
-            cost += _TOKCOST.get(t.type, 0)
-    return (len(toks), cost, len(text), text)
+_MIN = None
 
 
-def _dedent_block(src, stmts, to_col_text):
-    """Text of a statement list re-indented to start at indentation string `to_col_text`."""
-    first, last = stmts[0], stmts[-1]
-    rows = src.rows
-    r0, r1 = first.lineno - 1, last.end_lineno
-    if getattr(first, "decorator_list", None):
-        r0 = min(r0, first.decorator_list[0].lineno - 1)
-    ind = rw._indent_of(rows[r0])
-    out = []
-    for r in rows[r0:r1]:
-        if r.startswith(ind):
-            out.append(to_col_text + r[len(ind) :])
-        elif not r.strip():
-            out.append(r)
-        else:
-            return None
-    txt = "".join(out)
-    return txt if txt.endswith("\n") else txt + "\n"
+def _minimiser():
+    global _MIN
+    if _MIN is None:
+        _MIN = cmin.Minimiser(evaluate)
+    return _MIN
 
 
-def _stmt_rows(node):
-    r0 = node.lineno - 1
-    if getattr(node, "decorator_list", None):
-        r0 = min(r0, node.decorator_list[0].lineno - 1)
-    return r0, node.end_lineno
-
-
-def candidates(text, mode):
-    """Shrink candidates of `text`, most aggressive first.  Pure function of (text, mode)."""
-    src = rw.Src(text)
-    tree = cpython_parse(text, mode)
-    rows = src.rows
-    if tree is not None:
-        body = getattr(tree, "body", None)
-        if isinstance(body, list) and len(body) > 1:
-            for s in body:
-                r0, r1 = _stmt_rows(s)
-                yield "".join(rows[r0:r1])
-            for s in body:
-                r0, r1 = _stmt_rows(s)
-                yield "".join(rows[:r0]) + "".join(rows[r1:])
-        # pre-order walk, outermost first
-        order = []
-
-        def visit(n, parent):
-            order.append((n, parent))
-            for ch in ast.iter_child_nodes(n):
-                visit(ch, n)
-
-        visit(tree, None)
-        for n, parent in order:
-            if isinstance(n, ast.stmt):
-                r0, r1 = _stmt_rows(n)
-                ind = rw._indent_of(rows[r0]) if r0 < len(rows) else ""
-                whole_rows = rows[r0][len(ind) :].startswith(("@",)) or src.boff(n.lineno, n.col_offset) == src.starts[n.lineno - 1] + len(ind)
-                if whole_rows and n.end_lineno <= len(rows) and src.boff(n.end_lineno, n.end_col_offset) >= src.starts[n.end_lineno] - 2:
-                    for fld in ("body", "orelse", "finalbody"):
-                        sub = getattr(n, fld, None)
-                        if isinstance(sub, list) and sub and isinstance(sub[0], ast.stmt):
-                            blk = _dedent_block(src, sub, ind)
-                            if blk:
-                                yield "".join(rows[:r0]) + blk + "".join(rows[r1:])
-                    for h in list(getattr(n, "handlers", [])) + list(getattr(n, "cases", [])):
-                        if h.body:
-                            blk = _dedent_block(src, h.body, ind)
-                            if blk:
-                                yield "".join(rows[:r0]) + blk + "".join(rows[r1:])
-                if not isinstance(n, ast.Pass):
-                    s, e = src.span(n)
-                    if getattr(n, "decorator_list", None):
-                        s = min(s, src.span(n.decorator_list[0])[0] - 1)
-                    yield text[:s] + "pass" + text[e:]
-            elif isinstance(n, ast.expr) and hasattr(n, "end_col_offset"):
-                if isinstance(n, ast.FormattedValue) or (isinstance(parent, ast.JoinedStr) and isinstance(n, ast.Constant)):
-                    continue
-                s, e = src.span(n)
-                cur = text[s:e]
-                if cur != "a":
-                    yield text[:s] + "a" + text[e:]
-                for ch in ast.iter_child_nodes(n):
-                    if isinstance(ch, ast.expr) and hasattr(ch, "end_col_offset") and not isinstance(ch, ast.FormattedValue):
-                        cs, ce = src.span(ch)
-                        if s <= cs and ce <= e and (cs, ce) != (s, e):
-                            yield text[:s] + text[cs:ce] + text[e:]
-                    elif isinstance(ch, ast.FormattedValue):
-                        cs, ce = src.span(ch.value)
-                        yield text[:s] + text[cs:ce] + text[e:]
-            elif isinstance(n, ast.pattern):
-                s, e = src.span(n)
-                if text[s:e] != "_":
-                    yield text[:s] + "_" + text[e:]
-                if text[s:e] != "1":
-                    yield text[:s] + "1" + text[e:]
-                for ch in ast.iter_child_nodes(n):
-                    if isinstance(ch, ast.pattern):
-                        cs, ce = src.span(ch)
-                        yield text[:s] + text[cs:ce] + text[e:]
-    # row windows
-    for w in (3, 2, 1):
-        for i in range(0, len(rows) - w + 1):
-            if w < len(rows):
-                yield "".join(rows[:i]) + "".join(rows[i + w :])
-    # token windows (within a row): delete tokens i..i+w-1 with the whitespace that follows
-    toks = [t for t in src.toks if t.type not in (T.NL, T.NEWLINE, T.INDENT, T.DEDENT, T.ENDMARKER)]
-    for w in (4, 3, 2, 1):
-        for i in range(0, len(toks) - w + 1):
-            a, b = toks[i], toks[i + w - 1]
-            if a.start[0] != b.end[0]:
-                continue
-            s = src.off(a.start)
-            if i + w < len(toks) and toks[i + w].start[0] == b.end[0]:
-                e = src.off(toks[i + w].start)
-            else:
-                e = src.off(b.end)
-                if i > 0 and toks[i - 1].end[0] == a.start[0]:
-                    s = src.off(toks[i - 1].end)
-            yield text[:s] + text[e:]
-    # layout normalisation
-    for a, b in (("\r\n", "\n"), ("\r", "\n"), ("\f", ""), ("\t", " "), ("﻿", ""), ("\\\n", " "), ("\\\n", "")):
-        if a in text:
-            yield text.replace(a, b)
-            yield text.replace(a, b, 1)
-    for new in rw.r_indent(src):
-        yield new
-        break
-    # literal / name simplification
-    for t in src.toks:
-        s, e = src.off(t.start), src.off(t.end)
-        if t.type == T.NUMBER and t.string != "1":
-            yield text[:s] + "1" + text[e:]
-        elif t.type == T.STRING:
-            for lit in ("''", "'a'", "b''", t.string.lstrip("uUrRbB"), t.string[1:]):
-                if lit != t.string:
-                    yield text[:s] + lit + text[e:]
-            if len(t.string) >= 6 and t.string[-3:] in ("'''", '"""'):
-                q = t.string[-1]
-                p = t.string[: t.string.index(q)]
-                yield text[:s] + p + q + t.string[len(p) + 3 : -3] + q + text[e:]
-            if t.string[-1] == '"':
-                yield text[:s] + t.string.replace('"', "'") + text[e:]
-        elif t.type == T.FSTRING_START:
-            for lit in ("f'", "f" + t.string[-1]):
-                if lit != t.string:
-                    yield text[:s] + lit + text[e:]
-        elif t.type == T.FSTRING_MIDDLE and t.string:
-            yield text[:s] + text[e:]
-            yield text[:s] + "x" + text[e:]
-        elif t.type == T.COMMENT:
-            yield text[:s] + text[e:]
-            yield text[:s] + "#" + text[e:]
-        elif t.type == T.NAME and not keyword.iskeyword(t.string) and t.string != "a":
-            yield text[:s] + "a" + text[e:]
-    # whitespace gaps: shrink to one blank, then to nothing
-    for a, b, _ in rw._real_pairs(src):
-        if a.end[1] < b.start[1]:
-            o1, o2 = src.off(a.end), src.off(b.start)
-            if o2 - o1 > 1:
-                yield text[:o1] + " " + text[o2:]
-            yield text[:o1] + text[o2:]
-    if text.endswith("\n") and len(text) > 1:
-        yield text[:-1]
-
-
-_MIN_MEMO = {}
-_MIN_STATS = {"evals": 0, "steps": 0}
-
-
-def minimise(text, mode, sig):
-    """Smallest text reachable by greedy first-improvement shrinking that still fails with `sig`."""
-    path = []
-    cur = text
-    while True:
-        k = (mode, cur, sig)
-        if k in _MIN_MEMO:
-            res = _MIN_MEMO[k]
-            break
-        path.append(k)
-        cur_size = size_key(cur)
-        nxt = None
-        seen = set()
-        for c in candidates(cur, mode):
-            if c in seen or c == cur:
-                continue
-            seen.add(c)
-            if not c.strip():
-                continue
-            if size_key(c) >= cur_size:
-                continue
-            _MIN_STATS["evals"] += 1
-            if evaluate(c, mode) == sig:
-                nxt = c
-                break
-        if nxt is None:
-            res = cur
-            break
-        _MIN_STATS["steps"] += 1
-        cur = nxt
-    if len(_MIN_MEMO) > 300000:
-        _MIN_MEMO.clear()
-    for k in path:
-        _MIN_MEMO[k] = res
-    return res
+NFKC_SIG = "ast-diff:identifier-nfkc"
 
 
 def classify(text, mode, sig):
@@ -494,7 +293,15 @@ def classify(text, mode, sig):
     m = mode
     if mode != "exec" and evaluate(text, "exec") == sig:
         m = "exec"  # not mode specific: classify along the exec derivation so all modes share the key
-    mt = minimise(text, m, sig)
+    if sig == NFKC_SIG:
+        # repair transform: the failure is attributed to "identifiers are not NFKC-normalised" only if
+        # normalising exactly that in the input makes the input pass
+        fixed = unicodedata.normalize("NFKC", text)
+        if fixed != text and evaluate(fixed, m) == "ok":
+            mt = "\uff41"
+            if evaluate(mt, m) == sig:
+                return f"{sig} @ repair:NFKC", mt, m
+    mt = _minimiser().minimise(text, m, sig)
     shown = mt.rstrip("\n") if mt.rstrip("\n") else mt
     tag = "" if m == "exec" else f"[{m}] "
     return f"{sig} @ {tag}{json.dumps(shown, ensure_ascii=True)}", mt, m
@@ -507,15 +314,6 @@ _CFG = {}
 
 def _digest(mode, text):
     return hashlib.blake2b((mode[0] + text).encode("utf-8", "surrogatepass"), digest_size=8).digest()
-
-
-def _modes_for(text, is_expr, nstmts):
-    modes = ["exec"]
-    if is_expr:
-        modes.append("eval")
-    if nstmts == 1:
-        modes.append("single")
-    return modes
 
 
 def _init_worker():
@@ -538,14 +336,16 @@ def _gen_root(item):
 
 
 def _explore(item):
-    """Stage 2: one canonical program: itself plus every rewrite instance its class is entitled to."""
-    text, is_expr, rules, pair_rules = item
+    """Stage 2: one canonical program: itself plus every rewrite instance its class is entitled to.
+    item = (text, klass): klass 'pairs' > 'full' > 'light' (see _plan)."""
+    text, klass = item
+    t0 = time.perf_counter()
     stats = {"candidates": 0, "accepted": 0, "evals": 0, "fail_inputs": 0}
     digests = []
     fails = {}
     seen = set()
 
-    def consider(t, rule):
+    def consider(t, rule, all_modes):
         stats["candidates"] += 1
         if t in seen:
             return False
@@ -553,13 +353,15 @@ def _explore(item):
         tree = cpython_parse(t, "exec")
         if tree is None:
             return False
-        expr = len(tree.body) == 1 and isinstance(tree.body[0], ast.Expr)
+        modes = ["exec"]
+        if all_modes:
+            if len(tree.body) == 1 and isinstance(tree.body[0], ast.Expr):
+                modes.append("eval")
+            if len(tree.body) == 1:
+                modes.append("single")
         any_ok = False
-        for m in _modes_for(t, expr, len(tree.body)):
-            if m == "eval":
-                t_m = t.rstrip("\n")  # an expression text as eval() receives it
-            else:
-                t_m = t
+        for m in modes:
+            t_m = t.rstrip("\n") if m == "eval" else t  # an expression text as eval() receives it
             r = evaluate(t_m, m)
             if r is None:
                 continue
@@ -580,34 +382,38 @@ def _explore(item):
                         f[1] = ex
         return any_ok
 
-    consider(text, "canonical")
+    consider(text, "canonical", True)
     first = []
-    for name, new in rw.rewrites(text, rules):
-        if consider(new, name) and name in pair_rules:
+    for name, new in rw.rewrites(text, light=(klass == "light")):
+        if consider(new, name, klass != "light") and klass == "pairs" and name in PAIR_RULES:
             first.append(new)
-    # second rewrite instance on top of every accepted first one (thorough, root forms only)
+    # a second rewrite instance on top of every accepted first one
     for t1 in first:
-        for name, new in rw.rewrites(t1, pair_rules):
-            consider(new, "pair:" + name)
+        for name, new in rw.rewrites(t1, PAIR_RULES):
+            consider(new, "pair:" + name, False)
+    stats["wall"] = time.perf_counter() - t0
     return stats, b"".join(digests), fails
 
 
 def _plan(ctx):
-    """Bounds per tier."""
+    """Bounds per tier.  A layer is (name, max edits by number of constructor deviations, reduced
+    alphabet?).  `klass(devs, edits, layer)` says which part of the rewrite catalogue a canonical
+    program of that cost class receives."""
     if ctx.thorough:
-        return {
-            "maxlen": 3,
-            "layers": [("full", (3, 1), False), ("two-deviations", (0, 0, 0), True)],
-            # rewrite entitlement by (devs, edits) class of the canonical program
-            "full_rules": lambda dv, ed, layer: layer == "full" and (dv, ed) in ((0, 0), (0, 1), (0, 2), (1, 0)),
-            "pairs": lambda dv, ed, layer: layer == "full" and (dv, ed) == (0, 0),
-        }
-    return {
-        "maxlen": 3,
-        "layers": [("full", (2, 0), False)],
-        "full_rules": lambda dv, ed, layer: (dv, ed) in ((0, 0), (0, 1)),
-        "pairs": lambda dv, ed, layer: False,
-    }
+
+        def klass(dv, ed, layer):
+            if layer != "full":
+                return "light"
+            if (dv, ed) == (0, 0):
+                return "pairs"
+            return "full" if (dv, ed) in ((0, 1), (0, 2), (1, 0)) else "light"
+
+        return {"maxlen": 3, "layers": [("full", (3, 1), False), ("two-deviations", (0, 0, 0), True)], "klass": klass}
+
+    def klass(dv, ed, layer):
+        return "full" if (dv, ed) in ((0, 0), (0, 1)) else "light"
+
+    return {"maxlen": 3, "layers": [("full", (2, 0), False)], "klass": klass}
 
 
 PAIR_RULES = ("gap-remove", "gap-add", "paren-add", "paren-remove", "comma", "backslash", "bracket-newline", "semicolon", "inline-body")
@@ -635,24 +441,27 @@ def run(ctx):
         for text, is_expr, cost in progs:
             old = canon.get(text)
             rank = (0 if layer == "full" else 1, 2 * cost[0] + cost[1], cost)
-            if old is None or rank < old[3]:
-                canon[text] = (is_expr, cost, layer, rank)
+            if old is None or rank < old[2]:
+                canon[text] = (cost, layer, rank)
     ctx.log(f"abstract layer: {raw} typed trees -> {len(canon)} distinct canonical texts")
     # ---- stage 2: concrete layer + oracle
     work = []
-    all_rules = tuple(rw.RULES)
+    nklass = {"pairs": 0, "full": 0, "light": 0}
     for text in sorted(canon, key=lambda t: (len(t), t)):
-        is_expr, (dv, ed), layer, _rank = canon[text]
-        rules = all_rules if plan["full_rules"](dv, ed, layer) else rw.LIGHT
-        pairs = PAIR_RULES if plan["pairs"](dv, ed, layer) else ()
-        work.append((text, is_expr, rules, pairs))
-    res = common.pmap(_explore, work, ctx.jobs, chunk=8, init=_init_worker, seed=ctx.seed)
+        (dv, ed), layer, _rank = canon[text]
+        k = plan["klass"](dv, ed, layer)
+        nklass[k] += 1
+        work.append((text, k))
+    ctx.log(f"rewrite entitlement of the canonical texts: {nklass}")
+    res = common.pmap(_explore, work, ctx.jobs, chunk=4, init=_init_worker, seed=ctx.seed)
     tot = {"candidates": 0, "accepted": 0, "evals": 0, "fail_inputs": 0}
     blob = []
     fails = {}
-    for st, dg, fl in res:
-        for k in tot:
-            tot[k] += st[k]
+    slow = []
+    for (text, k), (st, dg, fl) in zip(work, res):
+        for kk in tot:
+            tot[kk] += st[kk]
+        slow.append((st["wall"], text))
         blob.append(dg)
         for key, (n, ex, mt, mm, sig) in fl.items():
             f = fails.get(key)
@@ -665,17 +474,17 @@ def run(ctx):
     data = b"".join(blob)
     distinct = len({data[i : i + 8] for i in range(0, len(data), 8)})
     ctx.log(f"concrete layer: {tot['candidates']} candidate texts, {tot['accepted']} (text, mode) inputs accepted by CPython, {distinct} distinct; {tot['fail_inputs']} failing inputs in {len(fails)} classes")
+    if os.environ.get("XV_C01_DEBUG"):
+        slow.sort(reverse=True)
+        ctx.log(f"cpu in stage 2: {sum(w for w, _ in slow):.0f}s; slowest items: " + "; ".join(f"{w:.1f}s {t!r}" for w, t in slow[:8]))
     # ---- report: re-check every class on a fresh parser (fresh state, no exploration history)
-    _parser(fresh=True)
-    _EVAL_CACHE.clear()
     for key in sorted(fails):
         n, ex, mt, mm, sig = fails[key]
-        again = evaluate(mt, mm)
         _EVAL_CACHE.clear()
         _parser(fresh=True)
-        again2 = evaluate(mt, mm)
-        if again != sig or again2 != sig:
-            raise common.ToolError(f"replay of {key!r} diverged: {sig!r} in the explorer, {again!r}/{again2!r} on a fresh parser")
+        again = evaluate(mt, mm)
+        if again != sig:
+            raise common.ToolError(f"replay of {key!r} diverged: {sig!r} in the explorer, {again!r} on a fresh parser")
         obs, exp = describe(mt, mm)
         ctx.violation(
             key=key,
@@ -686,20 +495,20 @@ def run(ctx):
             note=f"{n} failing input(s) minimise to this program",
         )
     # ---- evidence
-    ok_samples = common.pick_samples([w[0] for w in work], ctx.seed, 6)
-    for t in ok_samples:
+    for t in common.pick_samples([w[0] for w in work], ctx.seed, 6):
         ctx.sample({"src": t, "mode": "exec", "verdict": evaluate(t, "exec"), "cpython": ast.dump(cpython_parse(t, "exec"))[:300]})
     bounds = {
         "layers": [{"name": n, "max_edits_by_constructor_deviations": list(b), "reduced_alphabet": r} for n, b, r in plan["layers"]],
         "max_list_len": plan["maxlen"],
+        "canonical_texts_by_rewrite_class": nklass,
         "rewrite_rules": list(rw.RULES),
-        "light_rules": list(rw.LIGHT),
+        "light_rules": dict(rw.LIGHT),
         "pair_rules": list(PAIR_RULES) if ctx.thorough else [],
     }
     ctx.coverage.update(
         evaluations=tot["evals"],
         distinct_nontrivial=distinct,
-        rule="every typed AST (constructors/fields read from ast.<Node>.__doc__) within the deviation budget, rendered by ast.unparse, plus every instance of every rewrite rule the program class is entitled to; an input is a (text, mode) pair that ast.parse accepts; non-trivial = distinct accepted inputs that reached the tree comparison",
+        rule="every typed AST (constructors/fields read from ast.<Node>.__doc__) within the deviation budget, rendered by ast.unparse, plus every instance of every rewrite rule its cost class is entitled to (pairs > full > light); an input is a (text, mode) pair that ast.parse accepts; non-trivial = distinct accepted inputs that reached the tree comparison",
         exhaustive=True,
         typed_trees=raw,
         canonical_texts=len(canon),
